@@ -1,5 +1,6 @@
 """Shared multi-stack transport workload + oracle for C01 (J1939-21) and C02 (J1939-22)."""
 import random
+import threading
 import collections
 
 from vt.world import World
@@ -218,6 +219,7 @@ def run_scenario(case, layer):
         m['exc'] = rec['exc']
         m['t_sub'] = rec['t0']
         m['frames_during_call'] = (n0, len(W.bus.frames))
+        m['call_thread'] = threading.get_ident()
     submit_ref.append(submit)
     for m in msgs:
         sim.at(m['t'], submit, m)
@@ -242,7 +244,8 @@ def run_scenario(case, layer):
             n_ref += 1
             a, b = m['frames_during_call']
             # frames logged during the synchronous call that were sent by this node = side effect of a refused call
-            own = [f for f in W.bus.frames[a:b] if f.src == 'N%d' % eps[m['src']]['stack']]
+            # (sent by the calling thread: when the call is made from a pre-emptible receive thread other threads of the stack may send meanwhile)
+            own = [f for f in W.bus.frames[a:b] if f.src == 'N%d' % eps[m['src']]['stack'] and f.thread == m.get('call_thread', f.thread)]
             if own:
                 viol.add('refused_call_emitted', 'send_pgn returned %r but put %d frame(s) on the bus: %s' % (m['acc'], len(own), own[0].brief()), layer=layer)
             continue
